@@ -3,11 +3,12 @@
 EXTENDS Resp, TraceBase
 Blank == [proto |-> "connect", kind |-> "unary", status |-> 200, ctype |-> "match", enc |-> "none",
           hstatus |-> "absent", hdetails |-> "absent", tstatus |-> "absent", tdetails |-> "absent",
-          cerr |-> "none", body |-> "good", casing |-> "canon"]
+          cerr |-> "none", body |-> "good", casing |-> "canon", gmsg |-> "nf"]
 TraceInit == l = 1 /\ failed = FALSE /\ InitWith(Blank)
 TReset == Ev("reset") /\ ResetTo(Cur.sc) /\ Consume /\ failed' = FALSE
 Fuzzed == "fuzz" \in DOMAIN sc /\ sc.fuzz > 0
 TDone == /\ Ev("done") /\ Decide
+         /\ Cur.closed >= 1              \* C14: whatever the response was, its body has been closed
          /\ IF Fuzzed
             THEN Cur.ok \/ Cur.code >= 1        \* arbitrary bytes: success or a coded non-OK error, nothing else
             ELSE /\ Allows(verdict', Cur.ok, Cur.code)
